@@ -46,7 +46,7 @@ func EqualTable(p *core.Prog, r *core.Report) {
 		mk(aInt8, "1"), neg(mk(aInt8, "1")), mk(aInt8, "0"),
 		mk(aInt, "2"), mk(aInt32, "97"),
 		mk(aInt64, "1"), neg(mk(aInt64, "1")), mk(aInt64, "9007199254740992"), mk(aInt64, "9007199254740993"), mk(aInt64, "9223372036854775807"), neg(mk(aInt64, "9223372036854775808")),
-		mk(aUint8, "1"), mk(aUint8, "255"), mk(aUint16, "256"),
+		mk(aUint8, "1"), mk(aUint8, "255"), mk(aUint16, "256"), mk(aUint8, "0"), mk(aUint64, "0"), mk(aInt64, "0"),
 		mk(aUint64, "1"), mk(aUint64, "9007199254740993"), mk(aUint64, "9223372036854775808"), mk(aUint64, "18446744073709551615"),
 		mk(aFloat32, "1.0"), mk(aFloat32, "1.5"), neg(mk(aFloat32, "1.0")), mk(aFloat32, "256.0"),
 		mk(aFloat64, "1.0"), mk(aFloat64, "1.5"), mk(aFloat64, "2.5"), neg(mk(aFloat64, "1.0")), mk(aFloat64, "0.0"), mk(aFloat64, "97.0"),
@@ -97,7 +97,91 @@ func EqualTable(p *core.Prog, r *core.Report) {
 	} else {
 		r.OK(rule, "valuesEqual:exact", pos, fmt.Sprintf("numbers are equal exactly when their mathematical values are, on all %d typed pairs", n))
 	}
-	_ = core.FuncName
+	// the element level: the members of slices and maps are not compared by the predicate itself but by the helper
+	// it delegates to (its two operands handed on as the first two arguments); that helper never sees the
+	// predicate's own DeepEqual shortcut, so it is put through a table of its own — scalars of every JSON type
+	// (null, booleans, strings) besides a sample of the numeric pairs: equal exactly when same JSON value.
+	var elems []*ssa.Function
+	core.EachInstr(f, func(i ssa.Instruction) {
+		c, ok := i.(*ssa.Call)
+		if !ok || len(c.Call.Args) < 2 {
+			return
+		}
+		h := core.StaticCallee(c)
+		if h == nil || h == f || !p.InSubject(h) || len(h.Params) < 2 || len(h.Blocks) == 0 {
+			return
+		}
+		if through(c.Call.Args[0]) != ssa.Value(f.Params[0]) || through(c.Call.Args[1]) != ssa.Value(f.Params[1]) {
+			return
+		}
+		for _, e := range elems {
+			if e == h {
+				return
+			}
+		}
+		elems = append(elems, h)
+	})
+	type sv struct {
+		name string
+		v    aval
+		// JSON identity: type tag + value
+		tag string
+		c   constant.Value
+	}
+	scal := []sv{
+		{"nil", dyn(aNil), "null", nil},
+		{"true", aval{k: avDyn, a: aBool, c: constant.MakeBool(true)}, "bool", constant.MakeBool(true)},
+		{"false", aval{k: avDyn, a: aBool, c: constant.MakeBool(false)}, "bool", constant.MakeBool(false)},
+		{`"a"`, aval{k: avDyn, a: aString, c: constant.MakeString("a")}, "string", constant.MakeString("a")},
+		{`"b"`, aval{k: avDyn, a: aString, c: constant.MakeString("b")}, "string", constant.MakeString("b")},
+		{`"1"`, aval{k: avDyn, a: aString, c: constant.MakeString("1")}, "string", constant.MakeString("1")},
+		{"float64(1)", aval{k: avDyn, a: aFloat64, c: constant.MakeFloat64(1)}, "number", constant.MakeFloat64(1)},
+		{"int64(1)", aval{k: avDyn, a: aInt64, c: constant.MakeInt64(1)}, "number", constant.MakeFloat64(1)},
+		{"uint8(0)", aval{k: avDyn, a: aUint8, c: constant.MakeInt64(0)}, "number", constant.MakeFloat64(0)},
+		{"float64(1.5)", aval{k: avDyn, a: aFloat64, c: constant.MakeFloat64(1.5)}, "number", constant.MakeFloat64(1.5)},
+	}
+	targets := append([]*ssa.Function{f}, elems...)
+	m := 0
+	var ebad, eundet []string
+	for _, g := range targets {
+		for _, x := range scal {
+			for _, y := range scal {
+				m++
+				di := newRegionInterp(p, na)
+				di.startAt = nil
+				di.arith = true
+				args := []aval{x.v, y.v}
+				for k := 2; k < len(g.Params); k++ {
+					args = append(args, aval{k: avValid})
+				}
+				res := di.run(g, args, 0)
+				want := x.tag == y.tag && (x.c == nil || constant.Compare(x.c, token.EQL, y.c))
+				name := fmt.Sprintf("%s(%s, %s)", core.FuncName(g), x.name, y.name)
+				switch {
+				case res.k != avConst || res.c.Kind() != constant.Bool:
+					eundet = append(eundet, name)
+				case constant.BoolVal(res.c) != want:
+					if want {
+						ebad = append(ebad, name+": the same JSON value reported different")
+					} else {
+						ebad = append(ebad, name+": different JSON values reported equal")
+					}
+				}
+			}
+		}
+	}
+	r.Count("equal_table_scalar_pairs", m)
+	r.Floor("equal_table_scalar_pairs", 100)
+	if len(eundet) > 0 {
+		r.Unk(rule, "valuesEqual:scalars-determined", pos, "the outcome could not be determined by constant propagation for: "+short(eundet))
+	} else {
+		r.OK(rule, "valuesEqual:scalars-determined", pos, fmt.Sprintf("all %d scalar pairs (predicate and its element-level helper) evaluate to a single outcome", m))
+	}
+	if len(ebad) > 0 {
+		r.Bad(rule, "valuesEqual:scalars", pos, "the value-equality predicate or the helper that compares the members of slices and maps for it disagrees with JSON equality on scalars: "+short(ebad))
+	} else {
+		r.OK(rule, "valuesEqual:scalars", pos, fmt.Sprintf("null, booleans, strings and numbers are equal exactly when they are the same JSON value, on all %d pairs, at the top and at the element level (%d helper(s))", m, len(elems)))
+	}
 }
 
 // DATA-WALK — the equality predicate descends into slices and maps by recursion; Go values may contain themselves
@@ -266,4 +350,96 @@ func sameLoadedCell(a, b ssa.Value) bool {
 	la, ok1 := a.(*ssa.UnOp)
 	lb, ok2 := b.(*ssa.UnOp)
 	return ok1 && ok2 && la.X == lb.X
+}
+
+// MULTIPLE-TABLE — `multipleOf` decided exactly on a finite table: MultipleOf / MultipleOfInt / MultipleOfUint are
+// evaluated by the D-DYN interpreter (exact constant arithmetic, the dependency's integrality predicate modelled
+// faithfully, nothing runs) on pairs (value, factor) whose quotient is either an integer or has a fractional part
+// of at least 1/8 at a magnitude below 10^6 — far away from the tolerance of the predicate (the known finding
+// about that tolerance concerns quotients beyond 10^8) — and must accept exactly the pairs where the factor
+// divides the value, and reject every factor that is not positive.
+func MultipleTable(p *core.Prog, r *core.Report) {
+	const rule = "MULTIPLE-TABLE"
+	na := newNilAn(p)
+	str := aval{k: avConst, c: constant.MakeString("p")}
+	n := 0
+	var bad, undet []string
+	run := func(f *ssa.Function, name string, data, factor constant.Value, want bool) {
+		n++
+		di := newRegionInterp(p, na)
+		di.startAt = nil
+		di.arith = true
+		res := di.run(f, []aval{str, str, {k: avConst, c: data}, {k: avConst, c: factor}}, 0)
+		var got bool
+		switch {
+		case res.k == avValid:
+			got = false // an error value
+		case res.k == avNilPtr, res.k == avDyn && res.a == aNil:
+			got = true
+		default:
+			undet = append(undet, fmt.Sprintf("%s → %s", name, res))
+			return
+		}
+		if got != want {
+			if want {
+				bad = append(bad, name+": rejected although the factor divides the value")
+			} else {
+				bad = append(bad, name+": accepted although the factor does not divide the value (or is not positive)")
+			}
+		}
+	}
+	if f := p.Func("MultipleOf"); f != nil && len(f.Params) == 4 {
+		datas := []float64{0, 0.75, 1.5, 3, 4, 7, 10, -3, -4.5, 2.25, 100, 1000.5, 65536}
+		factors := []float64{0.125, 0.25, 0.5, 1, 1.5, 2, 2.5, 3, 7, 1024, 0, -2}
+		for _, d := range datas {
+			for _, fc := range factors {
+				want := false
+				if fc > 0 {
+					q := d / fc // exact for these operands or far from an integer
+					want = q == float64(int64(q))
+				}
+				run(f, fmt.Sprintf("MultipleOf(%v, %v)", d, fc), constant.MakeFloat64(d), constant.MakeFloat64(fc), want)
+			}
+		}
+	} else {
+		r.Unk(rule, "MultipleOf", "-", "MultipleOf(path, in, data, factor) not found")
+	}
+	if f := p.Func("MultipleOfInt"); f != nil && len(f.Params) == 4 {
+		for _, d := range []int64{0, 1, 6, 7, -6, -7, 1 << 40, 1<<40 + 1} {
+			for _, fc := range []int64{1, 2, 3, 7, 0, -1, -3} {
+				run(f, fmt.Sprintf("MultipleOfInt(%d, %d)", d, fc), constant.MakeInt64(d), constant.MakeInt64(fc), fc > 0 && d%fc == 0)
+			}
+		}
+	} else {
+		r.Unk(rule, "MultipleOfInt", "-", "MultipleOfInt(path, in, data, factor) not found")
+	}
+	if f := p.Func("MultipleOfUint"); f != nil && len(f.Params) == 4 {
+		for _, d := range []uint64{0, 1, 6, 7, 1 << 40, 1<<40 + 1, 1<<63 + 2} {
+			for _, fc := range []uint64{1, 2, 3, 7, 0} {
+				run(f, fmt.Sprintf("MultipleOfUint(%d, %d)", d, fc), constant.MakeUint64(d), constant.MakeUint64(fc), fc > 0 && d%fc == 0)
+			}
+		}
+	} else {
+		r.Unk(rule, "MultipleOfUint", "-", "MultipleOfUint(path, in, data, factor) not found")
+	}
+	r.Count("multiple_table_cases", n)
+	r.Floor("multiple_table_cases", 200)
+	short := func(l []string) string {
+		more := ""
+		if len(l) > 4 {
+			more = fmt.Sprintf(" … %d more", len(l)-4)
+			l = l[:4]
+		}
+		return strings.Join(l, "; ") + more
+	}
+	if len(undet) > 0 {
+		r.Unk(rule, "determined", "-", "the outcome could not be determined by constant propagation for: "+short(undet))
+	} else {
+		r.OK(rule, "determined", "-", fmt.Sprintf("all %d cases evaluate to a single outcome", n))
+	}
+	if len(bad) > 0 {
+		r.Bad(rule, "exact", "-", "multipleOf disagrees with exact divisibility: "+short(bad))
+	} else {
+		r.OK(rule, "exact", "-", fmt.Sprintf("a value is accepted exactly when the (positive) factor divides it, on all %d cases", n))
+	}
 }
